@@ -110,7 +110,7 @@ func Main(m *testing.M, property string) {
 	E.Replay = os.Getenv("VERIF_REPLAY")
 	R.frag.Property = property
 	R.frag.Shard = E.Shard
-	R.known = LoadKnown(filepath.Join(E.Root, "KNOWN_FINDINGS.txt"), property)
+	R.known = LoadKnownAll(E.Root, property)
 	debug.SetMaxStack(512 << 20)
 	start := time.Now()
 	flag.Parse()
@@ -568,6 +568,16 @@ func (k KnownEntry) Matches(sig string) bool {
 		return strings.HasPrefix(sig, strings.TrimSuffix(k.Sig, "*"))
 	}
 	return k.Sig == sig
+}
+
+// LoadKnownAll reads KNOWN_FINDINGS.txt plus findings/<ID>.txt (entries
+// proposed while a check is being built; merged into the main file at review).
+func LoadKnownAll(root, property string) []KnownEntry {
+	out := LoadKnown(filepath.Join(root, "KNOWN_FINDINGS.txt"), property)
+	if property != "" {
+		out = append(out, LoadKnown(filepath.Join(root, "findings", property+".txt"), property)...)
+	}
+	return out
 }
 
 // LoadKnown parses lines of the form
